@@ -15,7 +15,8 @@
 //!      (for the whole program and for every single instruction);
 //!  (4) a random permutation of the body and the body with one instruction duplicated give the
 //!      same verdict;
-//!  (5) the verdict of an instruction does not depend on the declared *length* of a region.
+//!  (5) the verdict of an instruction does not depend on the declared *lengths* of the regions
+//!      (each region is lengthened by a different amount, so relative lengths change too).
 
 use crate::engine::{lib, Check, Ctx, Outcome, Property, Src, Tier};
 use crate::gen::{classical, rf};
@@ -98,7 +99,7 @@ fn decode(src: &mut Src, names: &[&str; 4], tier: Tier, length_bump: u64) -> Dec
     let lengths: Vec<u64> = (0..4).map(|_| 1 + src.below(3) as u64).collect();
     let decls = (0..4)
         .filter_map(|k| {
-            types[k].map(|t| Instruction::Declaration(Declaration { name: names[k].to_string(), size: Vector { data_type: t, length: lengths[k] + length_bump }, sharing: None }))
+            types[k].map(|t| Instruction::Declaration(Declaration { name: names[k].to_string(), size: Vector { data_type: t, length: lengths[k] + length_bump * [1, 2, 4, 7][k] }, sharing: None }))
         })
         .collect();
     let n = 1 + src.below(tier.pick(6, 10));
@@ -170,7 +171,7 @@ impl Property for C30Prop {
         let (mut s1, mut s2, mut s3) = (src.fork(), src.fork(), src.fork());
         let d = decode(&mut s1, &names, ctx.tier, 0);
         let renamed = decode(&mut s2, &renaming, ctx.tier, 0);
-        let longer = decode(&mut s3, &names, ctx.tier, 2);
+        let longer = decode(&mut s3, &names, ctx.tier, 1);
         src.advance_to(s1.used());
         let text = show(&d);
         out.set_key(&text);
@@ -224,7 +225,7 @@ impl Property for C30Prop {
         // (5)
         for (k, i) in longer.body.iter().enumerate() {
             let v = verdict(&longer.decls, std::slice::from_ref(i))?;
-            ensure!(v == singles[k], "c30:length-dependence", "{} has verdict {} but {v} when every region is 2 cells longer", i.to_quil_or_debug(), singles[k]);
+            ensure!(v == singles[k], "c30:length-dependence", "{} has verdict {} but {v} when the regions are 1, 2, 4 and 7 cells longer", i.to_quil_or_debug(), singles[k]);
         }
 
         let mixed = singles.iter().any(|b| *b) && singles.iter().any(|b| !*b);
